@@ -125,9 +125,9 @@ def oracle_entry(spec, e):
     else:
         n_before = len(v)
         for f, what in stored_row_diffs(e["dump"], r["ok"]):
-            v.append((dict(base, **{"class": "stored-row-differs", "field": f}), "the row InsertLogs wrote, read back through Logs.ToCore, is not the entry that was written: " + what))
+            v.append(({"class": "stored-row-differs", "field": f}, "the row InsertLogs wrote, read back through Logs.ToCore, is not the entry that was written: " + what))
         if r.get("rehash") != e["hash"]:
-            v.append((dict(base, **{"class": "stored-entry-does-not-verify"}),
+            v.append(({"class": "stored-entry-does-not-verify"},
                       "the hash recomputed from the stored row (Logs.ToCore) over the previous stored row is %s, the entry was written with %s" % (r.get("rehash"), e["hash"])))
         # the row as PostgreSQL returns it (jsonb re-orders the keys of `data`) must convert to the same entry (reported when the row with
         # the data as written is fine: otherwise it says the same thing twice)
@@ -140,10 +140,10 @@ def oracle_entry(spec, e):
         if g is None or "skipped" in g:
             continue
         if "ok" not in g:
-            v.append((dict(base, **{"class": "store-read-fails", "read": name}), "%s does not find the entry just written: %s" % (name, g.get("error"))))
+            v.append(({"class": "store-read-fails", "read": name}, "%s does not find the entry just written: %s" % (name, g.get("error"))))
         else:
             for f, what in stored_row_diffs(e["dump"], g["ok"]):
-                v.append((dict(base, **{"class": "store-read-differs", "read": name, "field": f}), "%s answers an entry that is not the one written: %s" % (name, what)))
+                v.append(({"class": "store-read-differs", "read": name, "field": f}, "%s answers an entry that is not the one written: %s" % (name, what)))
     if e.get("table_refused"):
         v.append((dict(base, **{"class": "harness-table"}), "the logs table of the harness cannot play a statement of the store: %s" % e["table_refused"][:2]))
     return v
